@@ -6,7 +6,7 @@ import random
 
 from .. import core, gen, pymach as pm, sx
 
-THEOREMS = ['C07.mp_returns_iff', 'C07.mp_raises_iff', 'C07.gen_returns_iff', 'C07.gen_raises_iff', 'C07.inst_returns']
+THEOREMS = ['C07.basic_rules_text_is_the_model', 'C07.mp_returns_iff', 'C07.mp_raises_iff', 'C07.gen_returns_iff', 'C07.gen_raises_iff', 'C07.inst_returns']
 
 
 def perturb(rng, p):
@@ -46,7 +46,7 @@ def wrap_notation(rng, p):
 
 def run(rep):
     rng = random.Random(rep.seed * 1000003 + 7)
-    ok, detail = core.proof_gate(rep, 'Pi2.Props.C07', THEOREMS)
+    ok, detail = core.proof_gate(rep, 'Pi2.Props.C04b', THEOREMS)
     quick = rep.tier == 'quick'
     N = 1200 if quick else 20000
     lines, meta = [], []
